@@ -357,6 +357,7 @@ def normalize(model):
         f = model.funcs.get(k)
         if f is None:
             continue
+        fold_pointer_null_tests(f)
         eliminate_out_pointers(f)
         for _ in range(4):
             if not thread_flags(f):
@@ -776,6 +777,67 @@ def thread_flags(f):
                 del st[j]
                 changed = True
             i += 1
+    return changed
+
+
+def fold_pointer_null_tests(f):
+    """`if (p != NULL) A else B` where p is the copy of an inlined helper's parameter that was given `&x` (never null) or a
+    null constant, and is never assigned: keep the branch that is taken."""
+    from .astutil import is_null_expr
+    known = {}
+    for x in walk(f.body):
+        if x["kind"] == "VarDecl" and kids(x) and str(x.get("id", "")).startswith("inl") and "*" in (x.get("type") or ""):
+            ini = strip(kids(x)[0], casts=True)
+            if ini["kind"] == "UnaryOperator" and ini.get("opcode") == "&":
+                known[x["id"]] = True            # non-null
+            elif is_null_expr(kids(x)[0]):
+                known[x["id"]] = False
+    for x in walk(f.body):
+        if x["kind"] in ("BinaryOperator", "CompoundAssignOperator") and x.get("opcode", "").endswith("=") and \
+                x.get("opcode") not in ("==", "!=", "<=", ">="):
+            t = strip(kids(x)[0], casts=True)
+            if t["kind"] == "DeclRefExpr":
+                known.pop(t["ref"].get("id"), None)
+        if x["kind"] == "UnaryOperator" and x.get("opcode") in ("++", "--"):
+            t = strip(kids(x)[0], casts=True)
+            if t["kind"] == "DeclRefExpr":
+                known.pop(t["ref"].get("id"), None)
+    if not known:
+        return False
+
+    def decide(c):
+        c = strip(c, casts=True)
+        if c["kind"] == "DeclRefExpr" and c["ref"].get("id") in known:
+            return known[c["ref"]["id"]]
+        if c["kind"] == "UnaryOperator" and c.get("opcode") == "!":
+            v = decide(kids(c)[0])
+            return None if v is None else not v
+        if c["kind"] == "BinaryOperator" and c.get("opcode") in ("!=", "=="):
+            a_, b_ = kids(c)
+            for u, v in ((a_, b_), (b_, a_)):
+                u0 = strip(u, casts=True)
+                if u0["kind"] == "DeclRefExpr" and u0["ref"].get("id") in known and is_null_expr(v):
+                    nonnull = known[u0["ref"]["id"]]
+                    return nonnull if c["opcode"] == "!=" else not nonnull
+        return None
+    changed = False
+    for x in walk(f.body):
+        ch = x.get("inner")
+        if not ch or x["kind"] != "CompoundStmt":
+            continue
+        out = []
+        for c in ch:
+            v = decide(kids(c)[0]) if c["kind"] == "IfStmt" else None
+            if v is None:
+                out.append(c)
+                continue
+            kc = kids(c)
+            taken = kc[1] if v else (kc[2] if len(kc) > 2 else None)
+            if taken is not None:
+                # splice the statements of the taken branch into the block (identifiers are resolved by id, not by name)
+                out.extend(kids(taken) if taken["kind"] == "CompoundStmt" else [taken])
+            changed = True
+        x["inner"] = out
     return changed
 
 
